@@ -220,6 +220,42 @@ func runC07(r *mc.Run) {
 			}
 		}
 	}
+	// the same bit differing in two bytes of one field (a comparison that folds the bytes together lets the two cancel)
+	for i := 0; i < 16; i++ {
+		for j := i + 1; j < 16; j++ {
+			i, j := i, j
+			for _, bit := range []int{0, 4} {
+				bit := bit
+				add(fmt.Sprintf("twobytes/attributes/report^%d.%d+%d.%d", i, bit, j, bit), func(qe []byte) { qe[48+i] ^= 1 << uint(bit); qe[48+j] ^= 1 << uint(bit) }, nil)
+				add(fmt.Sprintf("twobytes/attributes/identity^%d.%d+%d.%d", i, bit, j, bit), nil, func(e *world.EnclaveIdentity) { e.Attributes = flipHex(flipHex(e.Attributes, i*8+bit), j*8+bit) })
+				add(fmt.Sprintf("twobytes/attributes/report^%d.%d+identity^%d.%d", i, bit, j, bit), func(qe []byte) { qe[48+i] ^= 1 << uint(bit) }, func(e *world.EnclaveIdentity) { e.Attributes = flipHex(e.Attributes, j*8+bit) })
+			}
+		}
+	}
+	for i := 0; i < 32; i++ {
+		for j := i + 1; j < 32; j++ {
+			i, j := i, j
+			add(fmt.Sprintf("twobytes/mrsigner/report^%d+%d", i, j), func(qe []byte) { qe[128+i] ^= 0x40; qe[128+j] ^= 0x40 }, nil)
+			add(fmt.Sprintf("twobytes/mrsigner/report^%d+identity^%d", i, j), func(qe []byte) { qe[128+i] ^= 0x40 }, func(e *world.EnclaveIdentity) { e.Mrsigner = flipHex(e.Mrsigner, j*8+6) })
+		}
+	}
+	for i := 0; i < 4; i++ {
+		for j := i + 1; j < 4; j++ {
+			i, j := i, j
+			for bit := 0; bit < 8; bit++ {
+				bit := bit
+				add(fmt.Sprintf("twobytes/miscselect/report^%d.%d+%d.%d", i, bit, j, bit), func(qe []byte) { qe[16+i] ^= 1 << uint(bit); qe[16+j] ^= 1 << uint(bit) }, nil)
+				add(fmt.Sprintf("twobytes/miscselect/report^%d.%d+identity^%d.%d", i, bit, j, bit), func(qe []byte) { qe[16+i] ^= 1 << uint(bit) }, func(e *world.EnclaveIdentity) { e.Miscselect = flipHex(e.Miscselect, j*8+bit) })
+			}
+		}
+	}
+	// byte-swapped fields: the right bytes in the wrong places
+	add("swapped/attributes-report-bytes-0-14", func(qe []byte) { qe[48], qe[48+14] = qe[48+14], qe[48] }, nil)
+	add("swapped/mrsigner-report-reversed", func(qe []byte) {
+		for a, b := 128, 159; a < b; a, b = a+1, b-1 {
+			qe[a], qe[b] = qe[b], qe[a]
+		}
+	}, nil)
 	// pairs of single-field deviations (wiring mistakes show up as a verdict that needs both)
 	singles := []c07case{}
 	for _, c := range cases {
